@@ -95,7 +95,7 @@ package datafile
 // ---------------------------------------------------------------------------------------------
 
 //@ func (*datafile.DataReader).next
-//@   props C11 C12 C02 C03
+//@   props C11 C12 C02 C03 C17
 //@   requires [inv-reader] len(reader.blockBuf) == 32768 && reader.offset + 7 < 32768
 //@   requires [inv-df]     reader.dataFile != nil && reader.dataFile.ReadWriter != nil && reader.dataFile.lastBlockSize < 32768 && reader.dataFile.lastBlockID <= 1073741824
 //@   requires [pos-bound]  reader.blockID <= reader.dataFile.lastBlockID + 1
@@ -107,6 +107,7 @@ package datafile
 //@   ensures [inv-kept]     len(reader.blockBuf) == 32768 && (result2 == nil ==> reader.offset + 7 < 32768 && reader.blockID <= reader.dataFile.lastBlockID + 1)
 //@   ensures [pos]          result2 == nil ==> result1 != nil && fresh(result1) && result1.Fid == reader.dataFile.ID && result1.BlockID == old(reader.blockID) && result1.Offset == old(reader.offset)
 //@   ensures [advances]     result2 == nil ==> reader.blockID * 32768 + reader.offset > abs0
+//@   ensures [size-is-payload-plus-one-header-per-chunk] result2 == nil ==> result1.Size == uint32(7 * (reader.blockID - old(reader.blockID) + 1) + len(result0)) || (reader.offset == 0 && result1.Size == uint32(7 * (reader.blockID - old(reader.blockID)) + len(result0)))
 //@   ensures [eof-rewinds-to-the-record-start] result2 == io.EOF ==> reader.blockID == old(reader.blockID) && reader.offset == old(reader.offset)
 //@   ensures [err-no-data]  result2 != nil ==> result1 == nil && len(result0) == 0
 //@   ensures [res-own]      len(result0) == 0 || fresh(result0)
